@@ -19,4 +19,9 @@ def hsBytes (digest : Bytes) : Bytes := Ed.toBytesLE (hs digest) 32
 def hashToScalar (H : Bytes → Bytes) (msg : Bytes) : Nat := hs (H msg)
 def hashToScalarBytes (H : Bytes → Bytes) (msg : Bytes) : Bytes := Ed.toBytesLE (hashToScalar H msg) 32
 
+/-- the provided trait method `Hashable::hash_to_scalar` (hash.rs:111-113) — `self.hash().as_scalar()` — for any implementor,
+given by its `hash : α → Bytes` (`PublicKey`: Keccak of the 32 key bytes; `TransactionPrefix` / `RctSigBase`: Keccak of the
+serialisation; `Transaction`: `Monero.txHash`). The method has no logic of its own: it must not hash again, nor reduce twice. -/
+def hashableToScalarBytes {α : Type} (hash : α → Bytes) (x : α) : Bytes := hsBytes (hash x)
+
 end Monero.HashScalar
